@@ -183,6 +183,15 @@ impl Workdir {
         std::fs::set_permissions(&p, std::fs::Permissions::from_mode(src_perm(f))).unwrap();
         let fh = std::fs::File::options().write(true).open(&p).unwrap();
         fh.set_modified(std::time::UNIX_EPOCH + std::time::Duration::from_secs(f.mtime as u64)).unwrap();
+        // now and then the path handed to the builder is a symbolic link to the source (a file picked out of a
+        // build tree full of links): content, permission bits and modification time are those of the file it names
+        if f.seed % 5 == 0 && f.src_slot.is_none() {
+            let l = self.dir.join(format!("link_{idx}"));
+            let _ = std::fs::remove_file(&l);
+            if std::os::unix::fs::symlink(&p, &l).is_ok() {
+                return l;
+            }
+        }
         p
     }
 }
@@ -240,6 +249,10 @@ pub fn file_options(f: &FileCfg) -> Result<FileOptions, rpm::Error> {
 }
 
 fn scriptlet(s: &ScriptCfg) -> Scriptlet {
+    // the fields are public: every other scriptlet is filled in directly instead of through the setters
+    if s.script.len() % 2 == 0 {
+        return Scriptlet { script: s.script.clone(), flags: s.flags.map(ScriptletFlags::from_bits_retain), program: s.prog.clone() };
+    }
     let mut sc = Scriptlet::new(s.script.clone());
     if let Some(f) = s.flags {
         sc = sc.flags(ScriptletFlags::from_bits_retain(f));
